@@ -60,6 +60,20 @@ func registerBytes(e *Engine) {
 		b := argTerm(ex, args[1])
 		return ex.indexModel(ex.stringRegion(args[0].(StringV)), Region{ex.bvNode(b, 1, true), c64(ex.ctx, 0), c64(ex.ctx, 1)}), nil
 	})
+	e.reg("internal/bytealg.IndexByteString", func(ex *Exec, fn *ssa.Function, args []Value) (Value, *PanicV) {
+		b := argTerm(ex, args[1])
+		return ex.indexModel(ex.stringRegion(args[0].(StringV)), Region{ex.bvNode(b, 1, true), c64(ex.ctx, 0), c64(ex.ctx, 1)}), nil
+	})
+	e.reg("internal/bytealg.IndexByte", func(ex *Exec, fn *ssa.Function, args []Value) (Value, *PanicV) {
+		b := argTerm(ex, args[1])
+		return ex.indexModel(ex.sliceRegion(args[0].(SliceV)), Region{ex.bvNode(b, 1, true), c64(ex.ctx, 0), c64(ex.ctx, 1)}), nil
+	})
+	e.reg("internal/bytealg.IndexString", func(ex *Exec, fn *ssa.Function, args []Value) (Value, *PanicV) {
+		return ex.indexModel(ex.stringRegion(args[0].(StringV)), ex.stringRegion(args[1].(StringV))), nil
+	})
+	e.reg("internal/bytealg.Index", func(ex *Exec, fn *ssa.Function, args []Value) (Value, *PanicV) {
+		return ex.indexModel(ex.sliceRegion(args[0].(SliceV)), ex.sliceRegion(args[1].(SliceV))), nil
+	})
 	e.reg("(*crypto/rand.reader).Read", func(ex *Exec, fn *ssa.Function, args []Value) (Value, *PanicV) {
 		s := args[1].(SliceV)
 		if isZero(s.len) {
